@@ -96,48 +96,57 @@ def random_history(rng, n, c):
 
 
 # ------------------------------------------------------------------------------------------ running
-def run_harness(exe, wd, pool, cases, procs, timeout, tag="run"):
+def run_harness(exe, wd, pool, cases, procs, timeout, tag="run", max_restarts=4):
     """runs the cases in `procs` parallel harness processes; returns (events, crashes) where a crash is
-    (message, events of the execution that was running)"""
+    (message, events of the execution that was running).  After a crash the process is restarted behind the
+    crashing case (a few times), so that one crashing history does not hide the others."""
     procs = max(1, min(procs, len(cases)))
     per = (len(cases) + procs - 1) // procs
-    jobs = []
-    for i in range(procs):
+    env = dict(os.environ, ASAN_OPTIONS="detect_leaks=0:abort_on_error=0", UBSAN_OPTIONS="print_stacktrace=1")
+
+    def one(i):
         chunk = cases[i * per:(i + 1) * per]
-        if chunk:
-            cp = os.path.join(wd, "%s-cases-%d.ndjson" % (tag, i))
+        evs, crashes, attempt = [], [], 0
+        deadline = time.time() + timeout
+        while chunk:
+            cp = os.path.join(wd, "%s-cases-%d-%d.ndjson" % (tag, i, attempt))
+            tp = os.path.join(wd, "%s-trace-%d-%d.ndjson" % (tag, i, attempt))
             vlib.write_ndjson(cp, [{"pool": pool}] + chunk)
-            jobs.append((cp, os.path.join(wd, "%s-trace-%d.ndjson" % (tag, i))))
-
-    def one(job):
-        cp, tp = job
-        env = dict(os.environ, ASAN_OPTIONS="detect_leaks=0:abort_on_error=0", UBSAN_OPTIONS="print_stacktrace=1")
-        with open(tp, "w") as f:
-            try:
-                r = subprocess.run([exe, cp], stdout=f, stderr=subprocess.PIPE, text=True, timeout=timeout, env=env)
-                return r.returncode, r.stderr
-            except subprocess.TimeoutExpired:
-                return 124, "time-out after %ds" % timeout
-
-    events, crashes = [], []
-    with ThreadPoolExecutor(max_workers=len(jobs)) as ex:
-        results = list(ex.map(one, jobs))
-    for (cp, tp), (rc, err) in zip(jobs, results):
-        evs = []
-        with open(tp) as f:
-            for line in f:
+            with open(tp, "w") as f:
                 try:
-                    evs.append(json.loads(line))
-                except ValueError:
-                    pass                                   # a line cut short by a crash
-        if rc == 2 and not ("Sanitizer" in err or "runtime error" in err):
-            raise vlib.Infra("harness c06 refused its input: " + err[-600:])
-        if rc != 0:
-            execs = vlib.split_executions(evs)
+                    r = subprocess.run([exe, cp], stdout=f, stderr=subprocess.PIPE, text=True, timeout=max(5, deadline - time.time()), env=env)
+                    rc, err = r.returncode, r.stderr
+                except subprocess.TimeoutExpired:
+                    rc, err = 124, "time-out after %ds" % timeout
+            got = []
+            with open(tp) as f:
+                for line in f:
+                    try:
+                        got.append(json.loads(line))
+                    except ValueError:
+                        pass                               # a line cut short by the crash
+            if rc == 0:
+                evs += got
+                break
+            if rc == 2 and not ("Sanitizer" in err or "runtime error" in err):
+                raise vlib.Infra("harness c06 refused its input: " + err[-600:])
+            execs = vlib.split_executions(got)
             lastex = execs[-1] if execs else []
             crashes.append(("harness terminated abnormally while replaying a legal history (rc=%d): %s" % (rc, " ".join(err.split())[:400]), lastex))
-            evs = [e for ex_ in execs[:-1] for e in ex_]
-        events += evs
+            evs += [e for ex_ in execs[:-1] for e in ex_]
+            done = max(1, len(execs))                      # cases started, the last one crashed
+            chunk = chunk[done:]
+            attempt += 1
+            if attempt > max_restarts or rc == 124:
+                break
+        return evs, crashes
+
+    events, crashes = [], []
+    n = (len(cases) + per - 1) // per
+    with ThreadPoolExecutor(max_workers=n) as ex:
+        for evs, cr in ex.map(one, range(n)):
+            events += evs
+            crashes += cr
     return events, crashes
 
 
